@@ -96,7 +96,8 @@ impl LKHSearch {
             });
 
         // restore original unassigned jobs
-        new_solution.solution.unassigned = orig_solution.solution.unassigned.clone();
+        let repaired_unassigned =
+            std::mem::replace(&mut new_solution.solution.unassigned, orig_solution.solution.unassigned.clone());
 
         // NOTE: jobs (e.g. optional breaks) which were dropped by the repair are kept as required/ignored:
         // when an original route is restored, they are assigned again and must not stay pending
@@ -104,6 +105,12 @@ impl LKHSearch {
             new_solution.solution.routes.iter().flat_map(|route_ctx| route_ctx.route().tour.jobs().cloned()).collect();
         new_solution.solution.required.retain(|job| !assigned.contains(job));
         new_solution.solution.ignored.retain(|job| !assigned.contains(job));
+
+        // NOTE: jobs which the repair left without a tour (e.g. pending reloads) and which are not served by
+        // a restored route have to stay in the solution
+        repaired_unassigned.into_iter().filter(|(job, _)| !assigned.contains(job)).for_each(|(job, info)| {
+            new_solution.solution.unassigned.entry(job).or_insert(info);
+        });
 
         // recalculate solution state if we do
         new_solution.restore();
